@@ -47,6 +47,9 @@ def finish(ctx, hists):
     return events
 
 
+c19_mode = [False]
+
+
 def random_history(rnd, nk, nf, steps, families, fairs=('none', 'none', 'all', 'empty', 'some')):
     ks = [gen.rand_kripke(rnd, rnd.choice([2, 3, 3, 4])) for _ in range(nk)]
     fs = []
@@ -73,6 +76,7 @@ def random_history(rnd, nk, nf, steps, families, fairs=('none', 'none', 'all', '
     st = []
     live = []
     nxt = 1
+    edges = [[list(e) for e in K['R']] for K in ks]
     for _ in range(steps):
         r = rnd.random()
         if r < 0.6 or not live:
@@ -84,6 +88,17 @@ def random_history(rnd, nk, nf, steps, families, fairs=('none', 'none', 'all', '
             st.append({'op': 'call', 'k': k, 'j': j, 'mode': rnd.choice(['obj', 'obj', 'text']), 'fair': rnd.choice(fairs), 'r': nxt})
             live.append(nxt)
             nxt += 1
+        elif r < 0.64 and not c19_mode[0]:
+            k = rnd.randint(1, nk)
+            n = ks[k - 1]['n']
+            if rnd.random() < 0.7:
+                st.append({'op': 'editlabel', 'k': k, 's': rnd.randrange(n), 'a': rnd.choice(['p', 'q']), 'add': rnd.random() < 0.6})
+            else:
+                cand = [(a, b) for a in range(n) for b in range(n) if [a, b] not in edges[k - 1]]
+                if cand:
+                    a, b = rnd.choice(cand)
+                    edges[k - 1].append([a, b])
+                    st.append({'op': 'editedge', 'k': k, 's': a, 'd': b})
         elif r < 0.68:
             st.append({'op': 'badcall', 'k': rnd.randint(1, nk), 'b': rnd.randint(1, len(BAD)), 'fair': rnd.choice(fairs)})
         elif r < 0.9:
@@ -98,6 +113,7 @@ def random_history(rnd, nk, nf, steps, families, fairs=('none', 'none', 'all', '
 def run(ctx, c19=False):
     q = ctx.quick()
     rnd = ctx.rng
+    c19_mode[0] = c19         # C19's odd/junk presentations rename labels, so caller edits of K are exercised by C07 only
     if not c19:
         ctx.rule = ('cases = call histories over a pool of caller-owned Kripke structures and formula objects: modelcheck calls of all '
                     'three logics (object and text formulas; no fairness, F satisfied by every path, F = [], a proper F), caller '
